@@ -212,6 +212,11 @@ fn connack_body(variant: u8) {
             assert!(session.data.session_present == (sp0 && !reset_done), "C05: after a failed handshake the resume flag must be unchanged, or cleared if a CONNACK reporting no session was processed - never set (clean start is dropped only by a SUCCESSFUL handshake)");
             assert!(!reset_done || (!g::WP_FAIL && pd::FILL_OUTCOME == 0 && kind == 0 && rc == 0 && !spb), "C05: local state was discarded without a successful CONNACK reporting no session");
             assert!(reader_obs::read_bytes(&session.packet_reader) == 0 || g::WP_FAIL, "C12: a failed handshake leaves a partial inbound packet behind");
+            // a successful CONNACK reporting no session means the broker HAS replaced the session,
+            // whether or not the client then refuses the CONNACK for one of its properties
+            let fresh_announced = !g::WP_FAIL && pd::FILL_OUTCOME == 0 && kind == 0 && rc == 0 && !spb;
+            assert!(!fresh_announced || (reset_done && session.data.generation() == gen0.wrapping_add(1)), "C18/C05: a successful CONNACK reporting no session was refused for its properties without invalidating the handles and dropping the in-flight state of the replaced session");
+            kani::cover!(!(variant == 1 || variant == 3) || fresh_announced);
         }
     }
     kani::cover!(unsafe { g::N_CLEAR == 1 });
